@@ -8,6 +8,7 @@
 // element is read through RowBlock::operator[] / Row accessors only after its address was checked against the
 // owning vector, so a too-short array is an observed out-of-bounds read (`ub:oob`), not a silent pass.
 #include <fcntl.h>
+#include <signal.h>
 #include <sys/wait.h>
 #include <unistd.h>
 #include <algorithm>
@@ -296,17 +297,20 @@ static std::string unsound(const RowBlock<CI, float> &b, const RowBlockContainer
 // Risky operations (kinds known to leave an array on some versions of the code) are first tried in a forked
 // child.  A kind that survived 5 probes without ever crashing is no longer probed (fork under ASan is slow);
 // a kind that crashed once is always probed.
-struct ProbeStat { int survived = 0; bool crashed = false; };
+struct ProbeStat { int survived = 0; int crashed = 0; };
 static std::map<std::string, ProbeStat> g_probe;
-static bool need_probe(const std::string &kind) {
-  ProbeStat &p = g_probe[kind];
-  return p.crashed || p.survived < 5;
-}
+static bool g_in_child = false;
+// libasan calls this weak hook before it starts to format an error report: leave the probe child at once
+extern "C" void __asan_on_error() { if (g_in_child) _exit(77); }
 static bool crashes_raw(const std::function<void()> &fn);
+// A kind that survived 5 probes and never crashed is no longer probed (fork under ASan is slow); a kind that
+// crashed 3 times and never survived is presumed to crash (the operation is then not executed at all).
 static bool crashes(const std::string &kind, const std::function<void()> &fn) {
-  if (!need_probe(kind)) return false;
+  ProbeStat &p = g_probe[kind];
+  if (p.crashed == 0 && p.survived >= 5) return false;
+  if (p.survived == 0 && p.crashed >= 3) return true;
   bool c = crashes_raw(fn);
-  if (c) g_probe[kind].crashed = true; else ++g_probe[kind].survived;
+  if (c) ++p.crashed; else ++p.survived;
   return c;
 }
 // run fn in a forked child; true = the child crashed (sanitizer report / signal)
@@ -315,6 +319,9 @@ static bool crashes_raw(const std::function<void()> &fn) {
   pid_t pid = fork();
   if (pid < 0) return false;
   if (pid == 0) {
+    g_in_child = true;
+    signal(SIGSEGV, [](int) { _exit(78); });
+    signal(SIGBUS, [](int) { _exit(78); });
     int dn = open("/dev/null", O_WRONLY);
     if (dn >= 0) { dup2(dn, 2); dup2(dn, 1); }
     try { fn(); } catch (...) {}
@@ -406,6 +413,7 @@ struct RbHarness : vh::Harness {
   std::vector<Image> images;
   std::vector<std::string> fails;
   std::set<std::string> kinds;
+  bool in_probe = false;
 
   void begin_case(const Case &) override {
     iw = 4;
@@ -505,6 +513,9 @@ struct RbHarness : vh::Harness {
       else res = "eof";
     } catch (const dmlc::Error &) {
       res = "err:check";
+    } catch (const std::exception &) {       // e.g. std::length_error from a nonsensical element count
+      res = "err:invalid";
+      fail("none", "Load raised a C++ exception that is not dmlc::Error");
     }
     // oracle
     const Image *im = nullptr;
@@ -529,8 +540,11 @@ struct RbHarness : vh::Harness {
   template <typename CI>
   bool run_parse(const std::string &fmt, const std::string &text, RowBlockContainer<CI, float> *out) {
     std::string f = split_on(fmt, ':')[0];
-    // the chunk buffers the parsers get in production end in a NUL byte; std::string provides it
-    const char *b = text.data(), *e = text.data() + text.size();
+    // the chunk buffers the parsers get in production (InputSplitBase::Chunk) are followed by a zeroed
+    // 32-bit word; reads of the text side beyond `end` are C11's subject, not C13's
+    std::vector<char> buf(text.begin(), text.end());
+    buf.resize(text.size() + 8, '\0');
+    const char *b = buf.data(), *e = buf.data() + text.size();
     try {
       if (f == "svm") { SvmP<CI> p; p.Call(b, e, out); }
       else if (f == "fm") { FmP<CI> p; p.Call(b, e, out); }
@@ -633,6 +647,14 @@ struct RbHarness : vh::Harness {
   std::string do_iter_script(bool disk, size_t reuse, size_t npass, const std::vector<std::vector<RRow>> &blocks) {
     std::vector<RRow> want;
     for (auto &b : blocks) for (auto &r : b) want.push_back(r);
+    bool labelless = false;
+    for (auto &r : want) labelless = labelless || !r.hl;
+    if (labelless && !in_probe) {
+      in_probe = true;
+      bool c = crashes("iter-without-label", [&]() { do_iter_script<CI>(disk, reuse, npass, blocks); });
+      in_probe = false;
+      if (c) { fail("none", "row iterator over blocks without label leaves an array"); return "ub:oob"; }
+    }
     std::vector<std::vector<RRow>> ps;
     size_t nb = 0;
     std::string res;
@@ -682,6 +704,20 @@ struct RbHarness : vh::Harness {
   template <typename CI>
   std::string do_iter_file(const std::string &fmt, size_t cache, size_t npass, const std::string &text,
                            const std::vector<RRow> &lines) {
+    bool labelless = false;
+    for (auto &r : lines) labelless = labelless || !r.hl;
+    if (labelless && !in_probe) {
+      in_probe = true;
+      bool c = crashes("iterfile-without-label", [&]() { do_iter_file<CI>(fmt, cache, npass, text, lines); });
+      in_probe = false;
+      if (c) { fail("none", "RowBlockIter over a document without label column leaves an array"); return "ub:oob"; }
+    }
+    if (presence(lines).mixed() && !in_probe) {
+      in_probe = true;
+      bool c = crashes("iterfile-mixed", [&]() { do_iter_file<CI>(fmt, cache, npass, text, lines); });
+      in_probe = false;
+      if (c) { fail("none", "RowBlockIter over a document whose rows carry an optional part only partly leaves an array"); return "ub:oob"; }
+    }
     std::string path = out_dir + "/doc_" + std::to_string(++file_no) + ".txt";
     { std::ofstream f(path, std::ios::binary); f << text; }
     std::string cpath = out_dir + "/doc_" + std::to_string(file_no) + ".cache";
@@ -1038,6 +1074,32 @@ int main(int argc, char **argv) {
   auto all_shapes = shapes(3, 2);      // 40 shapes
   auto small_shapes = shapes(2, 1);    // 7 shapes
 
+  // (0) the canonical histories of the findings (findings/C13.json), first, so that on a tree without the
+  //     repairs the first violations reported name one defect each
+  {
+    std::vector<RRow> ls;
+    parse_rows("3f800000/40000000/-/-:1:3f800000;40400000/-/-/-:1:3f800000", &ls);
+    Case a;
+    a.kind = "canonical F1 parser hands out a short weight array";
+    a.ops = {"new 4", "parse svm " + vh::hex("1:2 1:1\n3 1:1\n") + " " + show_rows(ls), "getblock", "readall"};
+    R.run_case(a);
+    Case b;
+    b.kind = "canonical F2 slice pushed from position 0";
+    b.ops = {"new 4", "pushslice 4 1 3 3f800000/-/-/-:1:-;00000000/-/-/-:4:-;bf800000/-/-/-:7:-", "readall"};
+    R.run_case(b);
+    Case b2;
+    b2.kind = "canonical F2 field written at offset.back()";
+    b2.ops = {"new 4", "pushblock 4 3f800000/-/-/50:1:-", "pushblock 4 40000000/-/-/51:2:-,52:3:-", "readall"};
+    R.run_case(b2);
+    Case c;
+    c.kind = "canonical F4 block without label";
+    c.ops = {"new 4", "iterfile csv:-1:-1 0 2 " + vh::hex("1,2\n3,4\n") + " -/-/-/-:0:3f800000,-:1:40000000;-/-/-/-:0:40400000,-:1:40800000"};
+    R.run_case(c);
+    Case d;
+    d.kind = "canonical F3 mixed presence";
+    d.ops = {"new 4", "pushrow 4 3f800000/-/-/-:1:-", "pushblock 4 40000000/-/-/-:2:-", "getblock"};
+    R.run_case(d);
+  }
   // (1) every small block x every presence combination x every slice, pushed into an empty container
   {
     unsigned salt = 0;
@@ -1283,6 +1345,9 @@ int main(int argc, char **argv) {
         if (rng.chance(1, 2)) text += rng.chance(3, 4) ? " " : "\n";
       }
       if (rng.chance(1, 2)) text += "\n";
+      // a UTF-8 BOM as the very last bytes of a block makes CSVParser::ParseBlock set lend = end + 1 and scan
+      // past the chunk (text-side defect, reported to C11); keep the BOM but never last
+      if (text.size() >= 3 && text.compare(text.size() - 3, 3, "\xEF\xBB\xBF") == 0) text += "1\n";
       std::string fmt = it % 3 == 0 ? "svm" : it % 3 == 1 ? "fm" : "csv:" + std::to_string(static_cast<int>(rng.below(3)) - 1) + ":" + std::to_string(rng.chance(1, 3) ? 3 : -1);
       Case c;
       c.kind = "ptext " + fmt.substr(0, 3);
